@@ -1,4 +1,4 @@
-(* Lemmas about the tree as translated NOW (repaired code); see Props/C17Now.v. *)
+(* Lemmas about the tree as translated NOW (/repo with b484e3c and adebd46); see Props/C17Now.v. *)
 From Coq Require Import List NArith ZArith Bool.
 From HV Require Import Base.Res Base.Str Model.RemodelJson Gen.RemodelParams Model.Remodel
   Proofs.RemodelProofs.
